@@ -73,3 +73,8 @@ func (x *VerifValidator) FullyValidate(ctx context.Context, m PartiallyValidated
 func VerifVrfInput(beacon []byte, instance, round uint64, nn NetworkName) []byte {
 	return vrfSerializeSigInput(beacon, instance, round, nn)
 }
+
+// the participant's queue of messages for instances that have not started yet
+func (p *Participant) VerifQueueAdd(m *GMessage)                { p.mqueue.Add(m) }
+func (p *Participant) VerifQueueDrain(inst uint64) []*GMessage { return p.mqueue.Drain(inst) }
+func (p *Participant) VerifRunning() bool                       { return p.gpbft != nil }
